@@ -29,7 +29,8 @@ EPS = ("ws", "imds", "ga")
 EP_JSON = {"ws": "wireserver", "imds": "imds", "ga": "hostga"}
 AGUIDS = ("g1", "g2", "g3", "g4")
 FOREIGN = "gx"
-NOITEM = {"id": "", "mode": "-"}
+NOITEM = {"id": "", "mode": "-", "c": "-"}
+CONTENTS = ("c1", "c2", "c3")
 UNKNOWN = {"k": "Unknown", "ws": "-", "imds": "-"}
 
 
@@ -61,8 +62,8 @@ def adoc(ver, chan, has_rules=False, ws=None, imds=None, ga=None):
             "rules": {"ws": ws or dict(NOITEM), "imds": imds or dict(NOITEM), "ga": ga or dict(NOITEM)}}
 
 
-def item(rid, mode):
-    return {"id": rid, "mode": mode}
+def item(rid, mode, c="c1"):
+    return {"id": rid, "mode": mode, "c": c}
 
 
 def cid(ep, rid):
@@ -84,16 +85,40 @@ def tag(rid):
     return rid if rid else "empty"
 
 
+def rules_content(rid, c):
+    """what a rule document with this id lists in content version c (the id and the mode do not change with it):
+    c2 changes a privilege's path and query, an identity and the assignment; c3 only which privileges the role carries"""
+    t = tag(rid)
+    if c == "c2":
+        return {"privileges": [{"name": "p_" + t, "path": "/" + t + "/v2"}, {"name": "q_" + t, "path": "/q", "queryParameters": {"k": t + "2"}}],
+                "roles": [{"name": "role_" + t, "privileges": ["p_" + t, "q_" + t]}],
+                "identities": [{"name": "id_" + t, "userName": "user2_" + t}, {"name": "idx_" + t, "processName": "proc_" + t}],
+                "roleAssignments": [{"role": "role_" + t, "identities": ["id_" + t, "idx_" + t]}]}
+    return {"privileges": [{"name": "p_" + t, "path": "/" + t}, {"name": "q_" + t, "path": "/q", "queryParameters": {"k": t}}],
+            "roles": [{"name": "role_" + t, "privileges": ["p_" + t] if c == "c3" else ["p_" + t, "q_" + t]}],
+            "identities": [{"name": "id_" + t, "userName": "user_" + t}],
+            "roleAssignments": [{"role": "role_" + t, "identities": ["id_" + t]}]}
+
+
+def computed_content(rid, c):
+    """the computed item the agent must hold for (id, content version): privileges, identities, privilege assignments"""
+    r = rules_content(rid, c)
+    privs = {p["name"]: {k: v for k, v in p.items()} for p in r["privileges"]}
+    idents = {i["name"]: {k: v for k, v in i.items()} for i in r["identities"]}
+    roles = {x["name"]: x["privileges"] for x in r["roles"]}
+    asg = {}
+    for ra in r["roleAssignments"]:
+        for pn in roles.get(ra["role"], []):
+            if pn in privs:
+                asg.setdefault(pn, set()).update(i for i in ra["identities"] if i in idents)
+    return privs, idents, {k: sorted(v) for k, v in asg.items()}
+
+
 def concrete_item(ep, it, rnd):
     rid, mode = it["id"], it["mode"]
-    t = tag(rid)
     m = rnd.choice([mode, mode.capitalize(), mode.upper()]) if rnd else mode
-    return {
-        "defaultAccess": "allow" if default_allowed(rid) else "deny", "mode": m, "id": cid(ep, rid),
-        "rules": {"privileges": [{"name": "p_" + t, "path": "/" + t}, {"name": "q_" + t, "path": "/q", "queryParameters": {"k": t}}],
-                  "roles": [{"name": "role_" + t, "privileges": ["p_" + t, "q_" + t]}],
-                  "identities": [{"name": "id_" + t, "userName": "user_" + t}],
-                  "roleAssignments": [{"role": "role_" + t, "identities": ["id_" + t]}]}}
+    return {"defaultAccess": "allow" if default_allowed(rid) else "deny", "mode": m, "id": cid(ep, rid),
+            "rules": rules_content(rid, it.get("c", "c1"))}
 
 
 V1_STATE = {"disabled": "Disabled", "wireserver": "Wireserver", "wireserverandimds": "WireserverAndImds"}
@@ -147,18 +172,23 @@ def abs_state(s):
 
 
 def abs_item(ep, ci):
-    """computed authorization item (as serialised by the agent) -> abstract item; content that does not belong to the
-    id it carries is flagged in the id"""
+    """computed authorization item (as serialised by the agent through get_*_rules()) -> abstract item: id, mode and
+    the content version whose privileges / identities / privilege assignments it carries exactly; content that
+    belongs to no version of the id it carries is flagged"""
     if ci is None:
         return dict(NOITEM)
     rid = cid_rev(ep, ci.get("id", "?"))
     mode = str(ci.get("mode", "?")).lower()
-    t = tag(rid)
-    ok = (ci.get("defaultAllowed") == default_allowed(rid)
-          and sorted(ci.get("privileges", {}).keys()) == sorted(["p_" + t, "q_" + t])
-          and sorted(ci.get("identities", {}).keys()) == ["id_" + t]
-          and {k: sorted(v) for k, v in ci.get("privilegeAssignments", {}).items()} == {"p_" + t: ["id_" + t], "q_" + t: ["id_" + t]})
-    return {"id": rid if ok else "content-mismatch:" + rid, "mode": mode}
+    got_p = {k: {a: b for a, b in v.items() if b is not None} for k, v in (ci.get("privileges") or {}).items()}
+    got_i = {k: {a: b for a, b in v.items() if b is not None} for k, v in (ci.get("identities") or {}).items()}
+    got_a = {k: sorted(v) for k, v in (ci.get("privilegeAssignments") or {}).items()}
+    c = "content-mismatch"
+    if ci.get("defaultAllowed") == default_allowed(rid):
+        for cv in CONTENTS:
+            if (got_p, got_i, got_a) == computed_content(rid, cv):
+                c = cv
+                break
+    return {"id": rid, "mode": mode, "c": c}
 
 
 def classify_file(name, content, size):
@@ -424,7 +454,7 @@ MODE_OF = {"r0": "disabled", "r1": "audit", "r2": "enforce", "r3": "enforce"}
 
 def rand_item(rnd):
     rid = rnd.choice(["r0", "r1", "r2", "r3"])
-    return item(rid, MODE_OF[rid])
+    return item(rid, MODE_OF[rid], rnd.choice(["c1", "c1", "c2", "c3"]))
 
 
 def rand_doc(rnd):
@@ -456,7 +486,12 @@ def mutate_doc(d, rnd):
             d["rules"] = {ep: dict(NOITEM) for ep in EPS}
         elif d["hasRules"]:
             ep = rnd.choice(EPS)
-            d["rules"][ep] = dict(NOITEM) if rnd.random() < 0.35 else rand_item(rnd)
+            cur = d["rules"][ep]
+            if cur != NOITEM and rnd.random() < 0.35:
+                # the document keeps its id and mode and lists other privileges / identities / assignments
+                d["rules"][ep] = item(cur["id"], cur["mode"], rnd.choice([c for c in CONTENTS if c != cur["c"]]))
+            else:
+                d["rules"][ep] = dict(NOITEM) if rnd.random() < 0.35 else rand_item(rnd)
     return d
 
 
@@ -498,8 +533,11 @@ def transition_history(d1, d2, rnd, scenario="fresh"):
 
 
 def interesting_docs():
-    R = lambda r: item(r, MODE_OF[r])
+    R = lambda r, c="c1": item(r, MODE_OF[r], c)
     return [
+        adoc("2.0", "enabled", True, ws=R("r1", "c2"), imds=R("r2", "c3"), ga=R("r3", "c2")),
+        adoc("2.0", "enabled", True, ws=R("r1", "c3"), imds=R("r2", "c1"), ga=R("r3", "c3")),
+        adoc("1.0", "wireserver", True, ws=R("r1", "c2"), imds=R("r2")),
         adoc("1.0", "disabled"), adoc("1.0", "wireserver"), adoc("1.0", "wireserverandimds"),
         adoc("1.0", "wireserver", True, ws=R("r1"), imds=R("r2")),
         adoc("2.0", "disabled"), adoc("2.0", "disabled", True, ws=R("r2")),
@@ -521,6 +559,24 @@ def corner_histories(rnd):
          {"e": "reconf", "doc": adoc("2.0", "enabled", True, ws=a)}, concretise_poll(poll_row(g="g2"), rnd),
          {"e": "reconf", "doc": adoc("2.0", "enabled", True)}, concretise_poll(poll_row(g="g2"), rnd),
          concretise_poll(poll_row(g="g2"), rnd), {"e": "end"}])
+    # the document of one endpoint keeps id and mode and lists other privileges / identities / assignments -- directly,
+    # with failed polls in between, and across a restart
+    for ep in EPS:
+        for c2 in ("c2", "c3"):
+            d1 = adoc("2.0", "enabled", True, **{ep: item("r2", "enforce", "c1")})
+            d2 = adoc("2.0", "enabled", True, **{ep: item("r2", "enforce", c2)})
+            out["same-id-same-mode-different-content:%s:%s" % (ep, c2)] = (
+                [init_row(d1, "fresh"), concretise_poll(poll_row(g="g1"), rnd), {"e": "reconf", "doc": d2},
+                 concretise_poll(poll_row(g="g2"), rnd), concretise_poll(poll_row(g="g2"), rnd), {"e": "end"}])
+        d1 = adoc("2.0", "enabled", True, ws=item("r1", "audit", "c2"), imds=item("r2", "enforce", "c1"), ga=item("r3", "enforce", "c3"))
+        d2 = json.loads(json.dumps(d1))
+        d2["rules"][ep]["c"] = "c1" if d1["rules"][ep]["c"] != "c1" else "c2"
+        out["same-id-same-mode-different-content:%s:faults" % ep] = (
+            [init_row(d1, "haskey"), concretise_poll(poll_row(g="g2"), rnd), {"e": "reconf", "doc": d2},
+             concretise_poll(poll_row(status="fail", g="g2"), rnd), concretise_poll(poll_row(status="invalid", g="g2"), rnd),
+             concretise_poll(poll_row(g="g2"), rnd), {"e": "reconf", "doc": d1}, concretise_poll(poll_row(status="fail", g="g2"), rnd),
+             {"e": "crash"}, concretise_poll(poll_row(g="g2"), rnd), {"e": "reconf", "doc": d2},
+             concretise_poll(poll_row(g="g2"), rnd), concretise_poll(poll_row(g="g2"), rnd), {"e": "end"}])
     out["same-id-different-mode"] = (
         [init_row(adoc("2.0", "enabled", True, ws=item("r1", "audit")), "fresh"), concretise_poll(poll_row(g="g1"), rnd),
          {"e": "reconf", "doc": adoc("2.0", "enabled", True, ws=item("r1", "enforce"))}, concretise_poll(poll_row(g="g2"), rnd),
